@@ -20,6 +20,9 @@ import (
 func init() {
 	pn := "internal/printer/nodes.go"
 	register(&Property{ID: "C07", Run: runC07, Mutants: []Mutant{
+		{Name: ".wz printer: 注: comments are not line comments", File: "internal/printer/w2printer/printer_comment.go", Old: "\treturn text[0] == '#' || len(text) > 1 && text[1] == '/' || isZhuComment(text)", New: "\treturn text[0] == '#' || len(text) > 1 && text[1] == '/'", Expect: "zhu-comment-is-line-comment"},
+		{Name: ".wz printer: 结构 printed at the name's position", File: "internal/printer/w2printer/printer_type_struct.go", Old: "\tp.print(pos, token.Zh_结构, token.K_点)", New: "\tp.print(s.Pos(), token.Zh_结构, token.K_点)", Expect: "keyword-at-declaration-position"},
+		{Name: ".wz printer: group keyword printed at the colon's position", File: "internal/printer/w2printer/printer_file.go", Old: "p.print(d.Pos(), tok, token.COLON)", New: "p.print(d.Lparen, tok, token.COLON)", Expect: "keyword-at-declaration-position"},
 		{Name: ".wa printer: line-comment test forgets the '#' style", File: "internal/printer/printer.go", Old: "\treturn text[0] == '#' || len(text) > 1 && text[1] == '/'", New: "\treturn len(text) > 1 && text[1] == '/'", Expect: "hash-comment-is-line-comment"},
 		{Name: ".wz printer: line break after a comment decided from the second byte again", File: "internal/printer/w2printer/printer_comment.go", Old: "\t\tif isLineComment(last.Text) ||", New: "\t\tif len(last.Text) > 1 && last.Text[1] == '/' ||", Expect: "hash-comment-is-line-comment"},
 		{Name: ".wa printer: '#*' taken for a block comment", File: "internal/printer/printer.go", Old: "\treturn len(text) > 1 && text[0] == '/' && text[1] == '*'", New: "\treturn len(text) > 1 && text[1] == '*'", Expect: "hash-comment-is-line-comment"},
@@ -96,6 +99,9 @@ func runC07(c *Ctx) {
 	}
 	c07ImportDedup(c, p, astp)
 	c07HashComments(c)
+	if wz := p.Pkg("internal/printer/w2printer"); wz != nil {
+		c07WzPrinter(c, p, wz)
+	}
 	if wa, wz := p.MustPkg("printer-sibling-agreement", "internal/printer"), p.MustPkg("printer-sibling-agreement", "internal/printer/w2printer"); wa != nil && wz != nil {
 		c07SiblingAgreement(c, p, wa, wz)
 		c07KeywordElision(c, p, wa)
